@@ -24,6 +24,8 @@ YOUR TASK: make ONE small, realistic source change (the kind of regression a ref
 
 Then write a DEMONSTRATION: a standalone Rust integration test at {wt}/{demo_dir}/tests/seeded_demo.rs using only the public API (or, for the CLI, a bash script {wt}/SEEDED/demo.sh driving the built binary) that FAILS with your change and PASSES without it; under ~15 s, not flaky. Verify both directions yourself.
 
+Use `git apply -R SEEDED/patch.diff` / `git apply` (never `git stash`: the stash is shared by all worktrees of this repository) to test the unpatched direction.
+
 DELIVERABLES (write these files, then report their paths and a 5-line summary):
  - {wt}/SEEDED/patch.diff  : `git diff` of ONLY the source change (not the demo),
  - {wt}/SEEDED/demo.rs (or demo.sh) : copy of the demonstration file,
